@@ -210,6 +210,15 @@ class Node:
         with contextlib.redirect_stdout(io.StringIO()):
             self.store = blockstore.BlockStore(os.path.join(self.dir, 'chain.db')) if real_store else None
         blockstore.DefaultBlockStore.instance = self.store
+        if self.store is not None:
+            # the store holds the chain the node starts from (as after a restart), parents first
+            try:
+                initial = sorted((b for b in coinstate.block_by_hash.values() if b.height > 0), key=lambda b: b.height)
+                if initial:
+                    with contextlib.redirect_stdout(io.StringIO()):
+                        self.store.write_blocks_to_disk(initial)
+            except Exception:
+                pass
         # the node is put together the way the scripts do it: through NetworkingThread's constructor (which creates the
         # LocalPeer and hands it the chain state); the thread itself is never started -- simnet drives the event loop
         try:
@@ -387,7 +396,9 @@ class Net:
         LP.socket = FakeSocketModule(self)
         r = random.Random(self.rng.getrandbits(32))
         # clock and randomness wherever the networking modules look them up (absent names are left alone)
+        from skepticoin.networking import disk_interface as DI_
         for mod, name, val in ((LP, 'time', self.clock), (RP, 'time', self.clock), (MG, 'time', self.clock),
+                               (blockstore, 'time', self.clock), (DI_, 'time', self.clock),
                                (RP, 'random', r), (MG, 'random', r), (LP, 'random', r)):
             if hasattr(mod, name):
                 self.saved.append((mod, name, getattr(mod, name)))
